@@ -329,6 +329,10 @@ pub trait Allocator<VM: VMBinding>: Downcast {
                 .allow_oom_call
             {
                 self.out_of_memory(tls);
+            } else {
+                // We must not call the binding, but the request has failed for good: mark it so that
+                // `alloc_slow_inline` returns null instead of retrying the same request forever.
+                self.get_context().thrown_oom.store(true, Ordering::Relaxed);
             }
             return true;
         }
